@@ -278,6 +278,14 @@ class Walker:
                 shapes.append((ip.side, fr.name, cur, tuple(env_shapes), tuple(hid),
                                tuple((e.cls, str(e.ident)) for e in fr.exc_stack),
                                fr.gen.state if fr.gen is not None else None))
+            roots = getattr(ip, "roots", None)
+            if roots:
+                rs = []
+                for name in sorted(roots):
+                    def st(x, roots=roots, name=name):
+                        roots[name] = x
+                    rs.append((name, self.visit(roots[name], f"{ip.side}.<consumer>.{name}", st)))
+                shapes.append((ip.side, "<consumer>", tuple(rs)))
         return tuple(shapes)
 
 
@@ -340,6 +348,7 @@ class Job:
         if thorough:
             self.opts["thorough_only"] = True
         self.close_first = close_first
+        self.protocol = self.opts.get("protocol")
 
 
 class Env:
@@ -402,6 +411,9 @@ def describe(v):
 # =====================================================================================
 # verifier
 # =====================================================================================
+PROTO_NODE = ast.Pass(lineno=-1, col_offset=0)
+
+
 class Verifier:
     def __init__(self, job, impl_prog, ref_prog, mode="prove", unroll=3, timeout_ms=20000):
         self.job, self.impl_prog, self.ref_prog = job, impl_prog, ref_prog
@@ -475,7 +487,7 @@ class Verifier:
         if self.job.overrides == "contract":
             core = prog.module("_core")
             core.overrides["aiter"] = Builtin("contract.aiter")
-            for mn in ("builtins", "itertools", "heapq", "functools", "asynctools", "contextlib"):
+            for mn in ("builtins", "itertools", "heapq", "functools", "asynctools", "contextlib") + tuple(self.job.opts.get("extra_modules", ())):
                 m = prog.module(mn)
                 for local, (kind, level, target, name) in list(m.imports.items()):
                     if kind == "from" and level >= 1 and target == "_core":
@@ -523,6 +535,23 @@ class Verifier:
             except PyRaise as pr:
                 yield Ev("Done", ("raise", pr.exc))
                 return
+            if job.kind == "protocol":
+                # an arbitrary history of operations on the returned object (and on handles it hands out);
+                # the consumer loop itself is a cut point, so histories are unbounded
+                H = {"self": r}
+                ip.roots = H
+                proto = job.protocol
+                while True:
+                    yield Ev("LoopHead", PROTO_NODE, None, site=(-1, 0))
+                    ops = tuple(proto.available(H))
+                    resp = yield Ev("NextOp", ops)
+                    op = resp[1]
+                    try:
+                        res = yield from proto.perform(ip, H, op)
+                        out = ("ok", res)
+                    except PyRaise as pr:
+                        out = ("raise", pr.exc)
+                    yield Ev("Result", op, out)
             if job.kind != "gen":
                 yield Ev("Done", ("return", r))
                 return
@@ -698,6 +727,15 @@ class Verifier:
             e = ExcVal("UserError" if c == "raise" else "Cancelled", ident=("await", ctx.evseq), origin="env")
             self.trace.append((f"await {describe(ev.payload[0])}", f"raise {e.cls}"))
             return ("raise", e)
+        if ev.kind == "NextOp":
+            ops = ev.payload[0]
+            c = ctx.choose(len(ops), "op") if len(ops) > 1 else 0
+            self.trace.append(("op", ops[c]))
+            return ("op", ops[c])
+        if ev.kind == "Result":
+            k, v = ev.payload[1]
+            self.trace.append((f"result {ev.payload[0]}", f"{k} {describe(v)}"))
+            return ("resume", None)
         handler = job.opts.get("respond")
         if handler is not None:
             r = handler(self, ctx, ev, env)
@@ -781,7 +819,19 @@ class Verifier:
         if f is True:
             return res.record(name, kind, True)
         if f is False:
-            return res.record(name, kind, False, detail=detail, model=None, trace=list(self.trace))
+            import os
+            if os.environ.get("PYVC_DEBUG"):
+                detail = (detail or "") + " PC-TAIL: " + " ;; ".join(str(x).replace("\n", " ") for x in ctx.pc[-14:]) + f" feasible={ctx.check()}"
+            model = None
+            if self.mode == "bounded":
+                try:
+                    if ctx.check() == z3.sat:
+                        model = self.model_summary(ctx)
+                except Exception:
+                    model = None
+            res.record(name, kind, False, detail=detail, model=model, trace=list(self.trace))
+            self.note_invs(name)
+            return False
         ok, r = ctx.valid(f)
         if ok:
             return res.record(name, kind, True)
@@ -791,20 +841,43 @@ class Verifier:
                 model = self.model_summary(ctx)
             except Exception:
                 model = None
-        return res.record(name, kind, False, detail=(detail or "") + f" [{r}] not implied: {z3.simplify(f)}",
-                          model=model, trace=list(self.trace), unknown=(r == z3.unknown))
+        ok = res.record(name, kind, False, detail=(detail or "") + f" [{r}] not implied: {z3.simplify(f)}",
+                        model=model, trace=list(self.trace), unknown=(r == z3.unknown))
+        self.note_invs(name)
+        return ok
+
+    def note_invs(self, name):
+        """remember under which assumed invariants an obligation failed (diagnosis of too-weak invariants)"""
+        d = getattr(self.result, "failed_under", None)
+        if d is None:
+            d = self.result.failed_under = {}
+        if name not in d:
+            d[name] = [(f"L{k[0][0]} ref@{k[3]}{k[4]}", sorted(self.cands.get(k, {}))) for k in self.open_cuts]
 
     def model_summary(self, ctx):
+        """interpretation of the user-object predicates on the symbols of this path (for native replay)"""
         m = ctx.solver.model()
-        out = {}
+        syms = list(ctx.val_syms) + [v.t for v in self.env.vals.values()]
+        names = [str(x) for x in syms]
+        ev = lambda f: z3.is_true(m.eval(f, model_completion=True))
+        same = {}
+        for i, x in enumerate(syms):
+            for j in range(i):
+                if ev(x == syms[j]):
+                    same[names[i]] = same.get(names[j], names[j])
+                    break
+        out = {"same": same, "truthy": {}, "lt": {}, "eq": {}, "eq_none": {}, "ints": {}}
+        for x, n in zip(syms, names):
+            out["truthy"][n] = ev(truthy(x))
+            out["eq_none"][n] = ev(ctx_eq(x, NONE))
+            out["lt"][n] = {n2: ev(lt(x, y)) for y, n2 in zip(syms, names)}
+        for x, n in zip(syms, names):
+            for y, n2 in zip(syms, names):
+                if n < n2:
+                    out["eq"].setdefault(n, {})[n2] = ev(ctx_eq(x, y))
         for d in m.decls():
-            if d.arity() == 0:
-                out[d.name()] = str(m[d])
-        for fn in (truthy, lt, eq):
-            try:
-                out[fn.name()] = str(m[fn])
-            except Exception:
-                pass
+            if d.arity() == 0 and d.range() == z3.IntSort():
+                out["ints"][d.name()] = m[d].as_long()
         return out
 
     def ev_sites(self, ie, re_):
@@ -840,6 +913,17 @@ class Verifier:
                 f = self.val_eq(tuple(ie.payload[1]), tuple(re_.payload[1]))
         elif ie.kind == "Yielded":
             f = self.val_eq(ie.payload[0], re_.payload[0])
+        elif ie.kind == "NextOp":
+            f = ie.payload[0] == re_.payload[0]
+        elif ie.kind == "Result":
+            (ik, iv), (rk, rv) = ie.payload[1], re_.payload[1]
+            if ik != rk:
+                f = False
+            elif ik == "ok":
+                f = self.val_eq(iv, rv)
+            else:
+                norm = lambda c: "Stop" if c in ("StopIteration", "StopAsyncIteration") else c
+                f = (iv is rv) if (iv.origin == "env" or rv.origin == "env") else (norm(iv.cls) == norm(rv.cls))
         elif ie.kind in ("AwaitVal", "Await"):
             f = self.val_eq(ie.payload[0], re_.payload[0]) if ie.kind == "AwaitVal" else (ie.payload[0] is re_.payload[0])
         else:
